@@ -45,7 +45,7 @@ func init() {
 		Rule: "a case = 1-3 referenced unstructured objects (Istio VirtualService: 1-3 http routes with one stable / several / other-host destinations, " +
 			"subsets, match blocks, redirect-only rules, tls/tcp sections; DestinationRule: 0-3 subsets, trafficPolicy; made-up example.io kinds: nested specs " +
 			"with empty maps/lists, ints up to 2^62, floats, bools, lists of maps, nil/empty/filled labels and annotations) + for the made-up kinds a generated " +
-			"well-behaved Lua script (any subset of 8 building blocks) delivered through the kruise-rollout ConfigMap + a sequence of 0-4 strategies " +
+			"well-behaved Lua script (any subset of 9 building blocks, one of which reads and writes never-initialised script globals: on the promised fresh interpreter it is a pure function of the step) delivered through the kruise-rollout ConfigMap + a sequence of 0-4 strategies " +
 			"(weight 0..100, header/query/path matches in any mix, both, neither, requestHeaderModifier). The real provider applies s1..sn (each EnsureRoutes " +
 			"repeated until done, at most 5 calls) and Finalise; after every step the state is compared with that step applied alone to a fresh copy, the Istio " +
 			"reading is checked, and after Finalise the user's configuration is compared exactly. Non-trivial = at least one step reached done; " +
@@ -456,6 +456,22 @@ func runOnce(in *caseIn, res *core.CaseResult) {
 				d := detail()
 				d["object"], d["originalSpec"], d["specAfterStep"] = r, untree(orig[k].Spec), untree(cur[k].Spec)
 				res.Violate("c15:istio:"+f.rule+":"+f.proto, f.msg, d)
+			}
+		}
+		// interpreter freshness (absolute; the comparison below is differential and runs in the same process, so state
+		// that survives from call to call would show on both of its sides): the "gacc" block of a generated script
+		// writes whether its never-initialised global was still nil
+		for k, r := range in.Refs {
+			if !cur[k].HasSpec {
+				continue
+			}
+			if v, ok := asMap(cur[k].Spec)["freshInterpreter"]; ok {
+				res.Count("interpreter_freshness_checked", 1)
+				if b, isB := v.(bool); !isB || !b {
+					d := detail()
+					d["object"], d["specAfterStep"] = r, untree(cur[k].Spec)
+					res.Violate("c15:history:interpreter-state-survives-between-calls", "a script global assigned during an earlier call was still set when the script ran for this step: what is written is not a function of the original and this step alone", d)
+				}
 			}
 		}
 		// history independence: s1..si  vs  si alone on a fresh copy
